@@ -526,7 +526,7 @@ func expandPredicate(w *World, c *Canon, cond ssa.Value, known func(cond ssa.Val
 		return nil
 	}
 	res := g.Signature.Results()
-	if res.Len() != 1 || types.TypeString(res.At(0).Type(), nil) != "bool" {
+	if res.Len() != 1 || tstr(res.At(0).Type(), nil) != "bool" {
 		return nil
 	}
 	// no effects: no stores, map updates, sends, defers, go
